@@ -19,6 +19,18 @@ func isAttrAppend(l Label) (*Term, bool) {
 	}
 	a := l.T2.Args[1]
 	if a.Op == "struct" && a.Name == "ncg/signature.Attribute" {
+		// a summarised copy of a grown list handed on (result of the builder kept in a local): not an append
+		for _, f := range a.Args[1:] {
+			if f != nil && f.Op == "opaque" && f.Name == "?dropped" {
+				return nil, false
+			}
+		}
+		if l.T2.Args[0].Op != "self" {
+			return nil, false
+		}
+		if len(l.Node.Src) == 1 && l.Node.Src[0] != nil && l.Node.Src[0].Op == "var" {
+			return nil, false // x := y
+		}
 		return a, true
 	}
 	return nil, false
